@@ -351,8 +351,24 @@ impl Lowerer<'_> {
             let to_drop = self.stack_slots.pop().unwrap();
 
             if let Some(guard) = &arm.guard {
+                // The guard is only evaluated on the paths that reach it,
+                // so its temporaries get their own stack slot and are
+                // dropped before we branch. Otherwise they would live in
+                // the scope enclosing the whole match and be dropped at the
+                // end of that scope, even on paths where the guard never
+                // ran.
+                self.stack_slots.push(Vec::new());
+
                 let op = self.expr(guard);
                 let op = self.assign_to_var(op, TyRef::BOOL);
+
+                // The outcome is only read by the switch below.
+                self.remove_live_variable(&op);
+
+                let guard_to_drop = self.stack_slots.pop().unwrap();
+                for (var, ty) in guard_to_drop.into_iter().rev() {
+                    self.emit_drop(Place::new(var, ty), ty);
+                }
 
                 let ident = Identifier::from(format!("guard_{}_drop", i));
                 let intermediate_lbl =
